@@ -97,6 +97,17 @@ func checkC16InTree(root string, c c16Case) (skip string, err error) {
 			r = strings.ReplaceAll(r, "/", `\/`)
 		case 3:
 			r = "/" + r
+		case 4, 5:
+			// the first component below "/" is not literal
+			if i := strings.IndexByte(r[1:], '/'); i > 1 {
+				first := r[1 : 1+i]
+				if c.AbsForm == 4 {
+					first = "[" + first[:1] + "]" + first[1:]
+				} else {
+					first = first[:len(first)-1] + "?"
+				}
+				r = "/" + first + r[1+i:]
+			}
 		}
 		pat = r + "/" + pat
 	}
@@ -159,7 +170,7 @@ func checkC16(c c16Case) error {
 
 func init() { reg("C16", "glob", checkC16) }
 
-var c16Names = []string{"a", "b", "ab", "abc", "a-b", "a.d", ".h", ".hid", "é", "日本", "x*", "q?", "[z]", "a b", "sub", "dir", "d2", "A", "a+", "(p)", "t^", "$v", "{c}", "e|f", "-", "~", "a{2}", "aa", "aab", "a{2}b", "x{1,}", "{2}", "b{1,2}c", "bbc",
+var c16Names = []string{"a", "b", "ab", "abc", "a-b", "a.d", ".h", ".hid", "é", "日本", "x*", "q?", "[z]", "a b", "sub", "dir", "d2", "A", "a+", "(p)", "t^", "$v", "{c}", "e|f", "-", "~", "a{2}", "aa", "aab", "a{2}b", "x{1,}", "{2}", "b{1,2}c", "bbc", "*a", "a*b", "**", "*.go", `a\b`, `\`,
 	// long names: the pattern made from them by escaping or bracketing every character is longer than NAME_MAX
 	"L" + strings.Repeat("o", 130), strings.Repeat("*", 100), strings.Repeat("ab", 60)}
 
@@ -214,6 +225,28 @@ func TestC16(t *testing.T) {
 					t.Fatalf("INFRA: %v", err)
 				}
 			}
+		}
+	}
+	// a directory with more entries than any one read of it returns
+	if sh, _ := shard(); sh == 1%nsh {
+		var tree []c16Entry
+		tree = append(tree, c16Entry{Path: "big", Kind: "dir"})
+		for i := 0; i < 2600; i++ {
+			tree = append(tree, c16Entry{Path: fmt.Sprintf("big/f%04d", i), Kind: "file"})
+		}
+		err := withTree(tree, func(root string) error {
+			for _, pat := range []string{"big/*", "big/f1*", "big/*9", "big/f??00", "big/f25[0-9]?", "*/f0000", "big/f2599"} {
+				c := c16Case{Tree: nil, Pattern: pat}
+				if _, err := checkC16InTree(root, c); err != nil {
+					fail(t, "C16", "glob", c16Case{Tree: tree[:3], Pattern: pat}, "%v\n(a directory with 2600 entries)", err)
+				}
+				st.EvalN(1, 1)
+				st.Class("directory_with_2600_entries")
+			}
+			return nil
+		})
+		if err != nil {
+			t.Fatalf("INFRA: %v", err)
 		}
 	}
 	prop := func(rt *rapid.T) {
@@ -333,7 +366,7 @@ func TestC16(t *testing.T) {
 				}
 				c := c16Case{Tree: tree, Pattern: pat, Abs: rapid.IntRange(0, 7).Draw(rt, "abs") == 0}
 				if c.Abs {
-					c.AbsForm = rapid.SampledFrom([]int{0, 0, 1, 2, 3}).Draw(rt, "abs_form")
+					c.AbsForm = rapid.SampledFrom([]int{0, 0, 1, 2, 3, 4, 5}).Draw(rt, "abs_form")
 				}
 				c.Neighbours = rapid.IntRange(0, 7).Draw(rt, "neighbours") == 0
 				if c.Neighbours {
